@@ -25,6 +25,15 @@ func TestBoldyreva(t *testing.T) {
 		}
 		p, ids, regime := drawPolicyAndIDs(t, g, maxN)
 		method := rapid.SampledFrom(keygenMethods).Draw(t, "keygen")
+		// a tail of large quorums (dealt keys): signing code that loops over co-signers, Lagrange /
+		// span-programme coefficients and per-peer buffers is only stressed past a handful of parties
+		if rapid.IntRange(0, 11).Draw(t, "bigQuorum") == 0 {
+			n := rapid.SampledFrom([]int{8, 9, 10, 12, 16}).Draw(t, "bigN")
+			p = &policy.Policy{Family: policy.Threshold, N: n, T: rapid.IntRange(2, n).Draw(t, "bigT")}
+			regime = rapid.SampledFrom([]string{policy.Ordinal, policy.Sparse, policy.Large}).Draw(t, "bigRegime")
+			ids = policy.DrawIDs(t, p, regime)
+			method = "dealer"
+		}
 		km := keygen(t, g, method, p, ids, rapid.Uint64Range(0, 2).Draw(t, "keySeed"))
 		qmask, minimal := drawQuorum(t, p)
 		quorum := policy.IDList(ids, qmask)
